@@ -68,13 +68,26 @@ def assert_bound_to_repo():
 
 
 def _safe_run_case(case):
+    """Run one case. An exception escaping the check (raised inside fairlearn, or in the oracle because the
+    implementation returned something malformed) is reported as a violation of its own signature class."""
     try:
         with warnings.catch_warnings():
             warnings.simplefilter("ignore")
             r = _CHECK.run_case(case)
         return r or {}
-    except Exception as e:  # harness bug, not a property violation
-        return {"harness_error": "%s: %s\n%s" % (type(e).__name__, e, traceback.format_exc()[-1500:])}
+    except Exception as e:
+        tb = traceback.extract_tb(e.__traceback__)
+        where = None
+        for fr in tb:
+            if os.path.realpath(fr.filename).startswith(REPO + "/"):
+                where = "%s:%s" % (os.path.basename(fr.filename), fr.name)
+        if where is None:
+            where = "oracle:%s" % tb[-1].name
+        pid = getattr(_CHECK, "PROPERTY", "?")
+        return {"evals": 1, "nontrivial": True, "violations": [{
+            "sig": "%s:crash:%s@%s" % (pid, type(e).__name__, where),
+            "msg": "unexpected %s: %s | %s" % (type(e).__name__, str(e)[:200], traceback.format_exc()[-700:].replace("\n", " / ")),
+            "expected": None, "observed": repr(e)[:300], "snippet": None}]}
 
 
 def _work(chunk):
